@@ -1,5 +1,106 @@
 package main
 
+import (
+	"fmt"
+	"go/ast"
+	"os"
+	"os/exec"
+	"path/filepath"
+	"regexp"
+	"strconv"
+	"strings"
+)
+
 // factsAll: facts of the other subsystems (extended as models are added).
 func factsAll() {
+	factsApi()
+}
+
+// massCoreDir locates the vendored chain library in the module cache (version from /repo/go.mod).
+func massCoreDir() string {
+	b, err := os.ReadFile(filepath.Join(*repo, "go.mod"))
+	if err != nil {
+		fatal("%v", err)
+	}
+	m := regexp.MustCompile(`github.com/massnetorg/mass-core (v[^\s]+)`).FindStringSubmatch(string(b))
+	if m == nil {
+		fatal("mass-core not required in go.mod")
+	}
+	out, err := exec.Command("go", "env", "GOMODCACHE").Output()
+	if err != nil {
+		fatal("go env: %v", err)
+	}
+	return filepath.Join(strings.TrimSpace(string(out)), "github.com/massnetorg/mass-core@"+m[1])
+}
+
+// intFactAbs: like intFact but for a package at an absolute directory (module cache).
+func intFactAbs(lean, absdir, name string) {
+	save := *repo
+	*repo = "/"
+	defer func() { *repo = save }()
+	intFact(lean, strings.TrimPrefix(absdir, "/"), name)
+}
+
+func factsApi() {
+	// the three RFC1918 rules of api/gateway.go: key, network address, prefix length
+	p := loadPkg("api")
+	type rule struct {
+		ip   string
+		ones int64
+	}
+	rules := map[string]rule{}
+	for name, e := range p.decls {
+		if !strings.HasPrefix(name, "rfc1918_") {
+			continue
+		}
+		cl, ok := e.(*ast.CompositeLit)
+		if !ok {
+			fatal("api.%s: not a composite literal", name)
+		}
+		var r rule
+		for _, el := range cl.Elts {
+			kv := el.(*ast.KeyValueExpr)
+			call, ok := kv.Value.(*ast.CallExpr)
+			if !ok {
+				fatal("api.%s: unexpected field value", name)
+			}
+			switch kv.Key.(*ast.Ident).Name {
+			case "IP":
+				r.ip, _ = p.evalStr(call.Args[0])
+			case "Mask":
+				r.ones, _ = p.evalInt(call.Args[0], 0)
+				if bits, _ := p.evalInt(call.Args[1], 0); bits != 32 {
+					fatal("api.%s: mask is not over 32 bits", name)
+				}
+			}
+		}
+		rules[name] = r
+	}
+	lr, ok := p.decls["lanRules"].(*ast.CompositeLit)
+	if !ok {
+		fatal("api.lanRules: not a composite literal")
+	}
+	var items []string
+	for _, el := range lr.Elts {
+		kv := el.(*ast.KeyValueExpr)
+		key, _ := p.evalStr(kv.Key)
+		r, ok := rules[kv.Value.(*ast.Ident).Name]
+		if !ok {
+			fatal("api.lanRules: unknown rule")
+		}
+		var q [4]int
+		parts := strings.Split(r.ip, ".")
+		if len(parts) != 4 {
+			fatal("api.lanRules: %q is not dotted quad", r.ip)
+		}
+		for i, s := range parts {
+			q[i], _ = strconv.Atoi(s)
+		}
+		items = append(items, fmt.Sprintf("(%s, %d, %d, %d, %d, %d)", leanStr(key), q[0], q[1], q[2], q[3], r.ones))
+	}
+	// map iteration order of the source literal is preserved (AST order)
+	emit("/-- `lanRules` in api/gateway.go: (config key, network a.b.c.d, prefix length) -/\ndef lanRules : List (String × Nat × Nat × Nat × Nat × Nat) := [%s]", strings.Join(items, ", "))
+	mc := massCoreDir()
+	intFactAbs("maxwellPerMass", filepath.Join(mc, "consensus"), "MaxwellPerMass")
+	intFactAbs("maxMass", filepath.Join(mc, "consensus"), "MaxMass")
 }
